@@ -14,7 +14,8 @@ from ..explore import choice, vthreads
 from bardolph.controller.script_job import ScriptJob
 
 _PARTS = ('/bardolph/vm/', '/bardolph/runtime/', '/bardolph/controller/', '/bardolph/lib/')
-_SKIP = ('injection.py', 'i_lib.py', 'i_controller.py', 'settings.py', 'log_config.py')
+_SKIP = ('injection.py', 'i_lib.py', 'i_controller.py', 'settings.py', 'log_config.py',
+         'time_pattern.py')     # the recording clock evaluates a pattern over all 1440 minutes: harness work, not a schedule
 
 
 def trace_filter(code):
